@@ -269,6 +269,10 @@ def run_property(pid, tier="quick", seed=0, only=None, jobs=None, no_replay=Fals
     known, fixed = load_known(pid)
     os.makedirs(os.path.join(HERE, "out", "replay"), exist_ok=True)
     bounded_fns = {k: f.bounded for k, f in C.fns.items() if f.bounded}
+    for k, f in list(C.fns.items()):
+        # a bounded contract merged in from an extra set under "<key>#<pid>": its obligations carry the plain key
+        if f.bounded and "#" in k and not (C.fns.get(f.key) is not None and C.fns[f.key].verified):
+            bounded_fns[f.key] = f.bounded
     n_obl = len([n for n, a in byname.items() if a["fn"] not in bounded_fns])
     n_dis = 0
     n_b_obl = len(byname) - n_obl
